@@ -20,7 +20,8 @@ Not modelled (stated in the manifest): `key_paths=` views, indexing *inside* an 
 -/
 namespace MlModel.Tree
 
-abbrev Ref := Nat
+/-- References are heap indices. (A notation rather than a definition, so that `omega` sees `Nat`.) -/
+scoped notation "Ref" => Nat
 
 /-- Leaf values.  `arr` is a 1-D integer ndarray (an opaque leaf), `none` is Python `None`. -/
 inductive Val where
